@@ -14,7 +14,9 @@ fn run_blitz(toks: &[&str], em: &mut Emitter) {
     let (width, buflen, left, top, right, bottom, bw, bh) = (v[0], v[1], v[2], v[3], v[4], v[5], v[6], v[7]);
     em.case(&line, move || {
         let mut buffer: Vec<u32> = (0..buflen).map(|j| 0xB000_0000 | j as u32).collect();
-        let ev = BitmapEvent { dest_left: left as u16, dest_top: top as u16, dest_right: right as u16, dest_bottom: bottom as u16, width: bw as u16, height: bh as u16, bpp: 32, is_compress: true, data: vec![0x10] };
+        let bpp: u16 = if v.len() > 8 { v[8] as u16 } else { 32 };
+        let data = if bpp == 16 { vec![0x61, 0x34, 0x12] } else { vec![0x10] };
+        let ev = BitmapEvent { dest_left: left as u16, dest_top: top as u16, dest_right: right as u16, dest_bottom: bottom as u16, width: bw as u16, height: bh as u16, bpp, is_compress: true, data };
         let r = crate::gui::verif_fast_bitmap_transfer(&mut buffer, width, ev);
         let cells: Vec<String> = buffer.iter().enumerate().map(|(j, c)| if *c == (0xB000_0000 | j as u32) { ".".to_string() } else { format!("?{:08x}", c) }).collect();
         Obs::new(format!("{} {}", if r.is_ok() { "ok" } else { "E" }, cells.join(","))).nt(true)
@@ -105,6 +107,8 @@ pub fn generate(thorough: bool, seed: u64, part: (usize, usize), em: &mut Emitte
         } } }
         for &(bw, bh) in &[(0usize, 0usize), (0, 1), (0, 3), (1, 0), (5, 0), (1, 1), (2, 2)] { for &(l, t, rr, b) in &[(0usize, 0usize, 0usize, 0usize), (0, 0, 1, 1), (1, 1, 0, 0), (0, 0, 3, 3)] {
             let line = format!("blitz 4 16 {} {} {} {} {} {}", l, t, rr, b, bw, bh);
+            let toks: Vec<&str> = line.split(' ').collect(); run_case(&toks, em);
+            let line = format!("blitz 4 16 {} {} {} {} {} {} 16", l, t, rr, b, bw, bh);
             let toks: Vec<&str> = line.split(' ').collect(); run_case(&toks, em);
         } }
     }
